@@ -49,8 +49,7 @@ func vLoopSetup(n int, constructed bool, blockingOutput bool) (*vEnv, *vLoopCfg)
 		vAssume(vSumAssume(st...) == e.H)
 	}
 	B := uint(vParam("B", 1))
-	vAssume(vSumAssume(e.inflight()...) <= B)
-	vAssume(e.Gx == 0)
+	vAssume(vSumAssume(e.inflight()...) <= B) // includes items of a REMOVED priority that are still in flight
 	e.feed(vChoose("tokens", 2))
 	if !blockingOutput {
 		vOnBlock(e.fb, func() {
@@ -60,7 +59,13 @@ func vLoopSetup(n int, constructed bool, blockingOutput bool) (*vEnv, *vLoopCfg)
 			}
 			total := vSumAssert("in flight", e.inflight()...)
 			vAssert(total > 0, "C06: the discipline blocks on the feedback channel only while some item is in flight (no deadlock)")
-			i := vChoose("release", e.n)
+			i := vChoose("release", e.n+1)
+			if i == e.n {
+				// an item of a removed priority is fed back
+				vAssume(e.Gx >= 1)
+				e.fb <- e.foreign
+				return
+			}
 			vAssume(e.G[i] >= 1)
 			e.fb <- e.ps[i]
 		})
